@@ -29,3 +29,6 @@ Proof.
   constructor; [apply IH|]. apply Forall_forall. intros k H. apply in_map_iff in H as [[i k'] [<- H]].
   apply number_spine_gt in H. simpl. lia.
 Qed.
+
+Lemma epub_units_ge1 p spine i k : In (i, k) (epub_units p spine) -> 1 <= k.
+Proof. unfold epub_units. intro H. apply number_spine_gt in H. lia. Qed.
